@@ -45,6 +45,7 @@ class StreamSession:
 
     __slots__ = (
         "_closed",
+        "_drained",
         "_external_config",
         "_header",
         "_input_schema",
@@ -76,6 +77,10 @@ class StreamSession:
         self._input_schema: pa.Schema | None = None
         self._output_reader: ValidatedReader | None = None
         self._closed = False
+        # True once the output stream has been read to its end.  ``_closed`` only
+        # says the session refuses further use; a pool deciding whether the
+        # connection is back at a message boundary needs this one.
+        self._drained = False
         self._external_config = external_config
         self._ipc_validation = ipc_validation
         self._shm = shm
@@ -254,7 +259,10 @@ class StreamSession:
                 dropped = _read_batch_with_log_check(
                     self._output_reader, self._on_log, self._external_config, shm=self._shm
                 )
-            except (StopIteration, pa.ArrowInvalid, OSError):
+            except StopIteration:
+                self._drained = True
+                return
+            except (pa.ArrowInvalid, OSError):
                 return
             except Exception:  # RpcError, or the caller's on_log raising: keep draining
                 continue
@@ -395,11 +403,23 @@ class _RpcProxy:
         def caller(**kwargs: object) -> object:
             if wire_request_logger.isEnabledFor(logging.DEBUG):
                 wire_request_logger.debug("Unary call: method=%s", info.name)
+            # _PooledTransport (pool.py) wants to know about a call that was cut
+            # short: until the response has been read to its end the connection
+            # is not at a message boundary and the worker must not be reused.
+            tracked = hasattr(transport, "_call_in_flight")
             try:
+                if tracked:
+                    object.__setattr__(transport, "_call_in_flight", True)
                 _send_request(transport.writer, info, kwargs, shm=shm, protocol_version=protocol_version)
                 reader = ValidatedReader(ipc.open_stream(transport.reader), ipc_validation)
-                return _read_unary_response(reader, info, on_log, ext_cfg, shm=shm)
+                result = _read_unary_response(reader, info, on_log, ext_cfg, shm=shm)
+                if tracked:
+                    object.__setattr__(transport, "_call_in_flight", False)
+                return result
             except RpcError:
+                # An error the server sent: _read_unary_response drained the response.
+                if tracked:
+                    object.__setattr__(transport, "_call_in_flight", False)
                 raise
             except _TRANSPORT_ERRORS as exc:
                 raise RpcError(
